@@ -44,52 +44,27 @@ Proof.
 Qed.
 
 (* ---- the `relabel` projection ------------------------------------------------------------------------ *)
-(* suit variant (declaration order SPADES HEARTS DIAMONDS CLUBS) of a spec suit (clubs = 0 .. spades = 3), and back *)
-Definition sv (s : N) : N := 3 - s.
-(* the bijection of the spec suits that a rearrangement p of the four suit variants induces *)
-Definition suit_map (p : list N) (s : N) : N := sv (relabel_suit p (sv s)).
-
-Definition rebuild_ok (r s : N) : bool :=
-  (get_card_suit (layout r s) =? sv s)
-  && forallb (fun t => create (get_card_rank (layout r s)) t =? layout r (sv t)) SUIT4.
-Lemma rebuild_card r s t :
-  r < 13 -> s < 4 -> In t SUIT4 ->
-  get_card_suit (layout r s) = sv s /\ create (get_card_rank (layout r s)) t = layout r (sv t).
-Proof.
-  intros Hr Hs Ht.
-  pose proof (sweep_rs rebuild_ok ltac:(vm_compute; reflexivity) r s Hr Hs) as H.
-  unfold rebuild_ok in H. apply andb_true_iff in H. destruct H as [A B]. apply N.eqb_eq in A.
-  rewrite forallb_forall in B. specialize (B t Ht). apply N.eqb_eq in B. split; assumption.
-Qed.
-
+(* every rearrangement p of the four suits induces a bijection of the suits *)
 Definition perm_ok (p : list N) : bool :=
-  forallb (fun s => memN (relabel_suit p (sv s)) SUIT4 && (suit_map p s <? 4)
-                    && forallb (fun t => negb (suit_map p s =? suit_map p t) || (s =? t)) (N_range 4)) (N_range 4).
+  forallb (fun s => (relabel_suit p s <? 4)
+                    && forallb (fun t => negb (relabel_suit p s =? relabel_suit p t) || (s =? t)) (N_range 4)) (N_range 4).
 Lemma perms_ok : forallb perm_ok PERM4 = true.
 Proof. vm_compute. reflexivity. Qed.
 
-Lemma perm_facts p :
-  In p PERM4 -> suit_bijection (suit_map p) /\ forall s, s < 4 -> In (relabel_suit p (sv s)) SUIT4.
+Lemma perm_facts p : In p PERM4 -> suit_bijection (relabel_suit p).
 Proof.
   intros Hp. pose proof perms_ok as H. rewrite forallb_forall in H. specialize (H p Hp). unfold perm_ok in H.
   pose proof (forallb_N_range _ _ H) as K. cbv beta in K.
-  split; [split|].
+  split.
   - intros s Hs. specialize (K s Hs). rewrite !andb_true_iff in K. apply N.ltb_lt. tauto.
   - intros s t Hs Ht E. specialize (K s Hs). rewrite !andb_true_iff in K. destruct K as [_ K].
     pose proof (forallb_N_range _ _ K t Ht) as K2. cbv beta in K2. rewrite E, N.eqb_refl in K2.
     cbn [negb orb] in K2. apply N.eqb_eq, K2.
-  - intros s Hs. specialize (K s Hs). rewrite !andb_true_iff in K. apply memN_In. tauto.
 Qed.
 
-Lemma relabel_hand_is_relabel p ws :
-  In p PERM4 -> Forall RealCard ws -> relabel_hand p ws = map (relabel (suit_map p)) ws.
-Proof.
-  intros Hp HR. unfold relabel_hand. apply map_ext_in. intros w Hw. rewrite Forall_forall in HR.
-  destruct (HR w Hw) as (r & s & Hr & Hs & ->).
-  destruct (perm_facts p Hp) as [_ HI]. specialize (HI s Hs).
-  destruct (rebuild_card r s _ Hr Hs HI) as [A B]. rewrite A, B.
-  unfold relabel. destruct (Proofs.FiveFacts.decode_layout r s Hr Hs) as [-> ->]. reflexivity.
-Qed.
+(* the projection's relabelling is C08's [relabel], by definition of both *)
+Lemma relabel_hand_is_relabel p ws : relabel_hand p ws = map (relabel (relabel_suit p)) ws.
+Proof. reflexivity. Qed.
 
 Lemma proj_relabel_const chk n ws :
   (n = 5 \/ n = 6 \/ n = 7)%nat -> HandN n ws -> proj_relabel chk ws = Ok [true; true].
@@ -98,8 +73,8 @@ Proof.
   unfold proj_relabel. rewrite (validated_real chk n ws H), E0.
   assert (A : forall p, In p PERM4 -> hand_rank_value chk (relabel_hand p ws) = Ok v /\
                                      hand_rank_value_validated chk (relabel_hand p ws) = Ok v).
-  { intros p Hp. rewrite (relabel_hand_is_relabel p ws Hp (proj1 (proj2 H))).
-    destruct (perm_facts p Hp) as [Hb _].
+  { intros p Hp. rewrite (relabel_hand_is_relabel p ws).
+    pose proof (perm_facts p Hp) as Hb.
     rewrite (validated_real chk n _ (relabel_handN _ n ws Hb H)), (relabel_same chk _ n ws Hb Hn H).
     split; exact E0. }
   assert (B1 : forallb (fun p => ok_is (hand_rank_value chk (relabel_hand p ws)) v) PERM4 = true).
